@@ -1133,7 +1133,7 @@ var assumptions = []string{
 	"The per-call logging goroutine of strand.Strand is kept (real code) but scheduled only when no other goroutine is enabled and never preempted into: its only operations are receives on channels that are never sent on (quit, done) and a timer that never fires, which commute with every other operation; the explorer verifies this at run time and reports CHECK-BROKEN if such a goroutine performs any other operation. Removing one of its steps from a schedule never increases the preemption count of the rest.",
 	"Select fairness: a goroutine that comes straight back to the same select after receiving from a closed, drained channel (sendLoop's `case m := <-conn.WriteQueue: if m == nil { continue }` after Close) is not offered that alternative again while another one is ready, and when it is the only ready alternative the goroutine is treated as yielding (it runs only when nothing else can). Its iterations are pure reads that change nothing outside the goroutine; Go's select picks uniformly, so the unbounded repetition has probability 0. A spin that never ends shows up as the step horizon (livelock) violation.",
 	"Virtual timers never fire (strand timers only log; dial/read/write deadlines never expire). The network is an in-memory model (shim/vnet): dial succeeds at once when someone listens, unbounded socket buffers, Close makes the peer read EOF; no partial writes, no half-open connections, no happens-before through sockets.",
-	"Harnesses S2-S7 and S9 reach their starting state (Run accepting, peers connected) by ONE canonical schedule of the set-up phase (first-enabled, non-preemptive); only the concurrent phase is explored. S3 (three concurrent operations) is also explored as the three pairs S3a/S3b/S3c, which reach higher bounds.",
+	"Harnesses S2-S7 and S9 reach their starting state (Run accepting, peers connected) by ONE canonical schedule of the set-up phase (first-enabled, non-preemptive); only the concurrent phase is explored. In S3c, S5 and S7 (scenarios without Shutdown) the final Shutdown, issued after the concurrent calls returned, also runs under one canonical schedule. S3 (three concurrent operations) is also explored as the three pairs S3a/S3b/S3c, which reach higher bounds.",
 	"Race monitor: vector clocks advanced by go, channel send->receive (and receive->send for unbuffered / the k-th receive -> k+cap-th send), close->receive, Unlock->Lock, Done->Wait. Monitored locations: every field of gnet.ConnectionPool and gnet.Connection except the sync objects (coverage.rewriter.instrumented_fields; map element operations count as accesses of the map field), and every local variable of gnet/strand functions that is captured by a function literal which may run on another goroutine and is assigned after its declaration (signatures race:local:<var>@<func>). Objects behind pointers (bytes.Buffer contents, message values) are not monitored.",
 	"Supplement (thorough only): `go test -race` of the same scenarios on the un-rewritten code with real goroutines and loopback TCP is sampling; it can add findings (signatures supplement:*), it clears nothing.",
 }
